@@ -464,11 +464,16 @@ def huge_specs(seed, tier):
     """-> [(build, alg, mode)].  Quick: one one-call case of SHA-1 (one-shot
     or single Update, by seed; SHA1_Buf is Init + one SHA1_Update + Final; on
     the build without sanitizers, see build_nosan), one of SHA-256 (SHA-NI
-    build) and CRC32C (both builds, with the 1 GiB pieces control); thorough: every algorithm x {buf, upd} and
-    CRC32C x {upd, gib} on both builds."""
+    build) and CRC32C (both builds, with the 1 GiB pieces control);
+    thorough: every algorithm x {buf, upd} and CRC32C x {upd, gib} on both
+    builds."""
     if tier == 'quick':
-        return [('nosan', 'sha1', 'buf' if seed % 2 else 'upd'),
-                ('default', 'sha256', 'upd' if seed % 2 else 'buf'),
+        try:        # without SHA-NI a 4 GiB SHA-256 under the sanitizers takes ~90 s: thorough only
+            shani = any(' sha_ni' in l for l in open('/proc/cpuinfo') if l.startswith('flags'))
+        except OSError:
+            shani = False
+        return [('nosan', 'sha1', 'buf' if seed % 2 else 'upd')] + \
+            [('default', 'sha256', 'upd' if seed % 2 else 'buf')] * shani + [
                 ('default', 'crc32c', 'upd'), ('default', 'crc32c', 'gib'),
                 ('portable', 'crc32c', 'upd')]
     return [(b, a, m) for b in ('default', 'portable') for a in ALGS for m in ('buf', 'upd')] + \
